@@ -68,4 +68,9 @@ def r6_helpers(run, tree):
     af.check_wrap_numpy_fold(run, tree, want=("operands",))
 
 
-RULES = [r1_protocols, r2_catalogue, r3_no_inherit_without_reconcile, r4_dtype_gate, r5_out, r6_helpers]
+def r7_conversion(run, tree):
+    run.rule("C10.R7", "the conversion operands go through is exact (shared with C02/C08): Array.to scales by the unit ratio, no cast", "D7 fold of Array.to", "", floor=6)
+    af.check_to_fold(run, tree)
+
+
+RULES = [r7_conversion, r1_protocols, r2_catalogue, r3_no_inherit_without_reconcile, r4_dtype_gate, r5_out, r6_helpers]
